@@ -8,7 +8,7 @@ import (
 	"verif/vkit"
 )
 
-const rule = "the finite product {struct value, pointer to struct, TypeNamer on value receiver published as value / as pointer, TypeNamer on pointer receiver, named non-struct with a name method, state.ChangeMessage and state.ControlMessage as value and pointer, two function-local types that print identically (same reflect.Type.String()) and carry different custom names, named slice and map types with a custom name (nil zero value)} x {publish+persist, Replay with EventType comparison, SubscribeWithReplay[T], RegisterUpcast with T as source, RegisterUpcast with T as target followed by SubscribeWithReplay[T]}, enumerated completely every run and sampled with random ids, strings, noise events of other shapes and option order on top. Every case also publishes events of one Go type whose TypeNamer name depends on the value (an envelope) under several names on both buses. Oracle: stored Type == EventType(v); the typed API selects exactly the stored events published as T (ids in log order); upcasters fire for them and yield EventType(zero To). Non-trivial = a shape with a custom name or a pointer, through a typed API."
+const rule = "the finite product {struct value, pointer to struct, TypeNamer on value receiver published as value / as pointer, TypeNamer on pointer receiver, named non-struct with a name method, state.ChangeMessage and state.ControlMessage as value and pointer, two function-local types that print identically (same reflect.Type.String()) and carry different custom names, named slice and map types with a custom name (nil zero value), a type whose name method is on the pointer receiver published by value and as pointer} x {publish+persist, Replay with EventType comparison, SubscribeWithReplay[T], RegisterUpcast with T as source, RegisterUpcast with T as target followed by SubscribeWithReplay[T]}, enumerated completely every run and sampled with random ids, strings, noise events of other shapes and option order on top. Every case also publishes events of one Go type whose TypeNamer name depends on the value (an envelope) under several names on both buses. Oracle: stored Type == EventType(v); the typed API selects exactly the stored events published as T (ids in log order); upcasters fire for them and yield EventType(zero To). Non-trivial = a shape with a custom name or a pointer, through a typed API."
 
 var collEnum = vkit.NewCollector("C15", "TestProduct", rule)
 var collRand = vkit.NewCollector("C15", "TestRandom", rule)
